@@ -3,7 +3,7 @@
 # and by the Gallina model Model/Ingress.v (list_objs_ing); the whole report (all lines including the
 # {ingress-controller} ones, peers, blocked-ingress warnings) is compared.  Properties/C10.v proves
 # the model's {ingress-controller} lines equal the pointwise statement of the property.
-import copy, re
+import copy, os, re
 from .lib import core, gen, listcorr
 from .lib.core import cstr, cz, cnat, clist, cbool
 
@@ -299,6 +299,8 @@ def evaluate(h, cases, rng=None):
 
 def shrink(W, focus, still, budget=25):
     cur = copy.deepcopy(W)
+    if os.environ.get('VERIF_NOSHRINK'):
+        return cur
     changed = True
     while changed and budget > 0:
         changed = False
